@@ -28,7 +28,8 @@ ASSUMPTIONS = ["bumps is replaced by a minimal stub of bumps.parameter (Paramete
 REQUIRED_MONITORS = ["interfaces_agree", "selection_matches_reference_index", "unknown_name_refused"]
 REQUIRED_BUCKETS = {"quick": ["iface:kernel", "iface:DirectModel", "iface:keyword", "iface:sasview", "iface:bumps",
                               "dim:1d", "dim:2d", "multiplicity", "product", "array_distribution", "select:mask",
-                              "select:qlimits", "select:nan", "refuse:misspelt", "refuse:foreign", "refuse:pd_suffix", "refuse:bad_attribute"]}
+                              "select:qlimits", "select:nan", "refuse:misspelt", "refuse:foreign", "refuse:pd_suffix", "refuse:bad_attribute",
+                              "dispersity-on-vector-element:1d"]}
 REQUIRED_BUCKETS["thorough"] = REQUIRED_BUCKETS["quick"]
 
 STUBS = os.path.join(core.VERIF, "rtm", "stubs")
@@ -62,7 +63,15 @@ def request(i, rng, k, dim):
     cand = sas.usable_pd(i, pars, dim)
     rng.shuffle(cand)
     pd = {}
-    for p in cand[:int(rng.integers(0, 3))]:
+    npd = int(rng.integers(0, 3))
+    # elements of vector parameters (per-shell thickness, ...) carry dispersity like any scalar: every other
+    # request on a model that has them puts one first
+    vec = [p for p in cand if p.type == "volume" and any(kp.length > 1 and p.name.rstrip("0123456789") == kp.id
+                                                         for kp in i.parameters.kernel_parameters)]
+    if vec and k % 2 == 0:
+        cand = [vec[0]] + [p for p in cand if p is not vec[0]]
+        npd = max(npd, 1)
+    for p in cand[:npd]:
         if p.type == "orientation":
             spec = ("gaussian", int(rng.integers(2, 6)), float(rng.uniform(2, 20)), 2.0)
         else:
@@ -170,6 +179,8 @@ def run_agree(case, rec):
                                                          "array_distribution_for": arr,
                                                          "max_rel_err": core.maxrel(val, ref, 1e-14*sc)})
     rec.bucket("dim:" + dim)
+    if any(n_[-1].isdigit() for n_ in pd):
+        rec.bucket("dispersity-on-vector-element:" + dim)
     rec.set_shape((name, dim, sorted(pd), sorted(res)), nontrivial=len(res) >= 3)
     if k == 0:
         rec.observe(model=name, dim=dim, dispersed=pd, values={kk: v[:3] for kk, v in res.items()})
